@@ -76,7 +76,7 @@ SerUnwind == phase \in {"ser", "ser2"} /\ Unwind /\ UNCHANGED serIdle
 ToMut == /\ phase = "ser" /\ status = "done" /\ exc = "" /\ MODE = "mut" /\ phase' = "mut" /\ inv' = [hist |-> <<>>]
          /\ UNCHANGED <<w, stack, status, exc, fuel, result, r, dstack, dstatus, dexc, dfuel, dresult, p, san0, fuel0, ch0, dfuel0, cid>>
 MutStep == /\ phase = "mut" /\ Len(inv.hist) < HDEPTH
-           /\ LET ts == Targets(Progs[p].code, result, <<>>) \o <<Act("serialize", <<>>, "", "")>>
+           /\ LET ts == Targets(Progs[p].code, result, <<>>) \o Others
                IN  \E k \in 1..Len(ts) : inv' = [hist |-> Append(inv.hist, [act |-> ts[k], outcome |-> Outcome(ts[k])])]
            /\ UNCHANGED <<w, stack, status, exc, fuel, result, r, dstack, dstatus, dexc, dfuel, dresult, phase, p, san0, fuel0, ch0, dfuel0, cid>>
 \* mode "invalid": the valid object just serialized is violated in one place and serialized again
